@@ -416,3 +416,23 @@ Proof.
   - cbn [app]. destruct body as [|c0 rest]; [contradiction|]. destruct Hc as [C1 C2].
     unfold split_sign. rewrite C1, C2. cbn [andb]. rewrite Hp. cbn [pr_map]. rewrite V. do 2 f_equal. lia.
 Qed.
+
+(** Below the big-base threshold the multiplication kernel is never called. *)
+Lemma to_str_radix_reversed_irrel k1 k2 kd kg kb ki p u radix : radix_std p -> zlen u < 64 ->
+  to_str_radix_reversed k1 kd kg kb ki p u radix = to_str_radix_reversed k2 kd kg kb ki p u radix.
+Proof.
+  intros S Hl. unfold to_str_radix_reversed. destruct u as [|u0 u']; [reflexivity|].
+  rewrite (to_radix_le_irrel k1 k2) by auto. reflexivity.
+Qed.
+Lemma to_str_radix_irrel k1 k2 kd kg kb ki p u radix : radix_std p -> zlen u < 64 ->
+  to_str_radix k1 kd kg kb ki p u radix = to_str_radix k2 kd kg kb ki p u radix.
+Proof. intros S Hl. unfold to_str_radix. rewrite (to_str_radix_reversed_irrel k1 k2) by auto. reflexivity. Qed.
+Lemma ito_str_radix_irrel k1 k2 kd kg kb ki p x radix : radix_std p -> zlen (mag x) < 64 ->
+  ito_str_radix k1 kd kg kb ki p x radix = ito_str_radix k2 kd kg kb ki p x radix.
+Proof. intros S Hl. unfold ito_str_radix. rewrite (to_str_radix_reversed_irrel k1 k2) by auto. reflexivity. Qed.
+Lemma fmt_u_irrel k1 k2 kd kg kb ki p k fl u : radix_std p -> zlen u < 64 ->
+  fmt_u k1 kd kg kb ki p k fl u = fmt_u k2 kd kg kb ki p k fl u.
+Proof. intros S Hl. unfold fmt_u. rewrite (to_str_radix_irrel k1 k2) by auto. reflexivity. Qed.
+Lemma fmt_i_irrel k1 k2 kd kg kb ki p k fl x : radix_std p -> zlen (mag x) < 64 ->
+  fmt_i k1 kd kg kb ki p k fl x = fmt_i k2 kd kg kb ki p k fl x.
+Proof. intros S Hl. unfold fmt_i. rewrite (to_str_radix_irrel k1 k2) by auto. reflexivity. Qed.
